@@ -2112,7 +2112,7 @@ impl World {
                 }
             }
         }
-        if self.is(&["C05"]) && self.step % 5 == 0 {
+        if self.is(&["C05"]) && self.step % 9 == 0 {
             crate::treecheck::synthetic_trees(self)?;
         }
         if self.is(&["C05"]) && ic != ref_ic {
